@@ -331,6 +331,113 @@ NAMED = ["call_twice", "load_twice", "order_hint", "cfg_entry", "cfg_loop", "fn_
          "unused_outputs"]
 
 
+# ----------------------------------------------------------------------------- python.rs / hugr.model -> coq/gen/ModelAttrs.v
+
+class TranslateError(Exception):
+    pass
+
+
+STRUCT_IMPLS = ("Param", "Symbol", "Node", "Region", "Module", "Package")
+ENUM_IMPLS = ("Term", "Operation")
+
+
+def scan_python_rs(path):
+    """-> (reads: {class: [attribute...]}, built: [class...]).  Fails closed on anything unexpected."""
+    src = open(path).read().split("\n")
+    reads, built = {}, []
+    cur, mode, arm = None, None, None
+    for n, ln in enumerate(src, 1):
+        m = re.match(r"^impl<'py> pyo3::(FromPyObject<'py>|IntoPyObject<'py>) for &?(\w+) \{$", ln)
+        if m:
+            mode, cur, arm = ("from" if m.group(1).startswith("From") else "into"), m.group(2), None
+            if mode == "from":
+                if cur in STRUCT_IMPLS:
+                    reads.setdefault(cur, [])
+                elif cur not in ENUM_IMPLS and cur != "SeqPart":
+                    raise TranslateError("%d: FromPyObject for unknown type %s" % (n, cur))
+            continue
+        if re.match(r"^impl\b", ln):
+            mode, cur, arm = None, None, None
+            continue
+        if mode == "from":
+            a = re.match(r'^\s*"(\w+)" => (\{|Self::\w+,)\s*$', ln)
+            if a:
+                if cur not in ENUM_IMPLS:
+                    raise TranslateError("%d: class arm outside Term/Operation" % n)
+                arm = a.group(1)
+                if arm in reads:
+                    raise TranslateError("%d: duplicate arm %s" % (n, arm))
+                reads[arm] = []
+                if a.group(2) != "{":
+                    arm = None
+                continue
+            if cur == "SeqPart":
+                q = re.match(r'^\s*if name\.to_str\(\)\? == "(\w+)" \{$', ln)
+                if q:
+                    arm = q.group(1)
+                    reads[arm] = []
+                    continue
+            if re.match(r"^\s*_ => \{$", ln) or re.match(r"^\s*\} else \{$", ln):
+                arm = None
+            g = re.findall(r'\.getattr\("(\w+)"\)', ln)
+            if g:
+                if len(g) != 1 or not re.search(r'^\s*let [\w#]+(: [\w<>_]+)? = \w+\.getattr\("\w+"\)\?\.extract\(\)\?;$', ln):
+                    raise TranslateError("%d: unexpected attribute access: %s" % (n, ln.strip()))
+                target = cur if cur in STRUCT_IMPLS else arm
+                if target is None:
+                    raise TranslateError("%d: attribute read outside a class: %s" % (n, ln.strip()))
+                reads[target].append(g[0])
+            elif "getattr" in ln:
+                raise TranslateError("%d: unparsed getattr: %s" % (n, ln.strip()))
+        elif mode == "into":
+            g = re.findall(r'py_module\.getattr\("(\w+)"\)', ln)
+            for c in g:
+                if c not in built:
+                    built.append(c)
+            if "getattr" in ln and not g:
+                raise TranslateError("%d: unparsed getattr: %s" % (n, ln.strip()))
+        elif "getattr" in ln:
+            raise TranslateError("%d: getattr outside an impl: %s" % (n, ln.strip()))
+    if not reads or not built:
+        raise TranslateError("nothing scanned")
+    return reads, built
+
+
+def model_fields():
+    """dataclasses of hugr.model with their field names, in definition order"""
+    import dataclasses
+    import inspect
+    import hugr.model as model
+    out = []
+    for name, cls in vars(model).items():
+        if inspect.isclass(cls) and cls.__module__ == model.__name__ and dataclasses.is_dataclass(cls):
+            out.append((name, [f.name for f in dataclasses.fields(cls)]))
+    if not out:
+        raise TranslateError("no dataclasses found in hugr.model")
+    return out
+
+
+def gstring(x):
+    if not re.fullmatch(r"[A-Za-z0-9_#]*", x):
+        raise TranslateError("unexpected identifier " + repr(x))
+    return '"%s"' % x
+
+
+def model_attrs_v(reads, built, fields):
+    def tab(items):
+        return "[\n  " + ";\n  ".join("(%s, %s)" % (gstring(c), glist(gstring(a) for a in attrs)) for c, attrs in items) + "\n]"
+    return ("(* GENERATED by harness/props/c12.py on every run from hugr-model/src/v0/ast/python.rs and the\n"
+            "   dataclasses of hugr.model.  Do not edit. *)\n"
+            "From Coq Require Import List String.\nImport ListNotations.\nOpen Scope string_scope.\n\n"
+            "(* attribute names the Rust binding reads, per Python class (FromPyObject impls) *)\n"
+            "Definition rs_reads : list (string * list string) := %s.\n\n"
+            "(* classes the Rust binding constructs (IntoPyObject impls) *)\n"
+            "Definition rs_built : list string := %s.\n\n"
+            "(* dataclass fields of hugr.model *)\n"
+            "Definition py_fields : list (string * list string) := %s.\n"
+            % (tab(sorted(reads.items())), glist(gstring(c) for c in built), tab(fields)))
+
+
 # ----------------------------------------------------------------------------- the property
 
 class C12(fw.Prop):
@@ -352,13 +459,20 @@ class C12(fw.Prop):
     assumptions = ["validity guard of the theorems (ExportS.valid_b, valid_order_b) evaluated per case; a generated "
                    "module that does not meet it is reported as a correspondence failure"]
 
+    def regenerate(self, ctx):
+        reads, built = scan_python_rs(os.path.join(fw.REPO, "hugr-model", "src", "v0", "ast", "python.rs"))
+        text = model_attrs_v(reads, built, model_fields())
+        fw.write_if_changed(os.path.join(fw.COQ, "gen", "ModelAttrs.v"), text)
+        ctx.stats["binding_classes"] = len(reads)
+        return ["gen/ModelAttrs.v"]
+
     # -- cases
     def corpus(self, ctx):
         return [{"prog": n} for n in NAMED] + [{"prog": "dfg_root", "valid": False},
                                                {"prog": "call_twice", "package": True}]
 
     def generate(self, rng, tier, ctx):
-        n = 90 if tier == "quick" else 900
+        n = 260 if tier == "quick" else 3000
         cases = []
         for i in range(n):
             r = rng.random()
